@@ -367,7 +367,10 @@ def run(tier):
     c20.check_instr(cctx, lib, K)
     c20.check_string(cctx, lib, K, 4)
     c20.check_read_filter(cctx, lib)
-    ctx.bounds["contracts_discharged"] = {"procedures": ["ecb_instr", "ecb_string", "ecb_read_filter"], "string_length_max": K, "string_count_max": 4}
+    from vf.props import contracts
+
+    contracts.check_str(cctx, lib)
+    ctx.bounds["contracts_discharged"] = {"procedures": ["ecb_instr", "ecb_string", "ecb_read_filter", "ecb_str (result ends with the last digit)"], "string_length_max": K, "string_count_max": 4}
     ctx.extra["program_status"] = statuses
     dim_bounds(ctx)
     ctx.add_solver_stats(smt.STATS.export())
